@@ -203,8 +203,8 @@ pub proof fn lemma_seg_no_dollar(s: Seq<char>)
 //@ item expand file=src/sys/fs/path.rs fn=expand props=C17,C05,C12
 //@ sig pub fn expand<T: AsRef<Path>>(path: T) -> RvResult<PathBuf>
 //@ rw R4 1 ⟦pathstr.matches('~').count()⟧ => ⟦count_char(&pathstr, '~')⟧
-//@ rw R1 * ⟦!has_prefix(path, "~/")⟧ => ⟦!has_prefix_lit(path, "~/")⟧
-//@ rw R1 * ⟦!has(path, "~/")⟧ => ⟦!has_lit(path, "~/")⟧
+//@ rw R1 * re⟦\bhas_prefix\(path, ("[^"]*")\)⟧ => ⟦has_prefix_lit(path, \1)⟧
+//@ rw R1 * re⟦\bhas\(path, ("[^"]*")\)⟧ => ⟦has_lit(path, \1)⟧
 //@ rw R1 * ⟦pathstr != "~"⟧ => ⟦!pathstr.eq_lit("~")⟧
 //@ rw R1 * ⟦pathstr == "~"⟧ => ⟦pathstr.eq_lit("~")⟧
 //@ rw R7 * ⟦&pathstr[2..]⟧ => ⟦&pathstr.slice_from(2)⟧
